@@ -1,10 +1,12 @@
 (* C18 — OS signals are reported faithfully (model half; delivery itself is the OS and the Go runtime). *)
-From Coq Require Import List Bool NArith Arith.
+From Coq Require Import List Bool NArith Arith String.
 Import ListNotations.
 From BT Require Import Model.Skel Model.SkelTie Proof.SkelCert Proof.SkelProofs.
 
 Theorem C18_tie : G = guards_of_gen /\ g_sig_int_is_interrupt G = true /\ g_sig_honours_ignore G = true /\
-                  g_sig_loops G = true /\ g_restore_keeps_nosig G = true /\ g_int_err G = true /\ g_quit_nil G = true.
+                  g_sig_loops G = true /\ g_restore_keeps_nosig G = true /\ g_int_err G = true /\ g_quit_nil G = true /\
+                  g_sig_stays G = true /\ g_rz_guarded G = true /\
+                  shapes_ok_for ["handleSignals"; "handleResize"; "listenForResize"; "checkResize"]%string = true.
 Proof. vm_compute. repeat split. Qed.
 Print Assumptions C18_tie.
 
@@ -29,6 +31,10 @@ Print Assumptions C18_ignored.
 Theorem C18_without_signals : forall s, Reach s -> nosig s = true -> sending (sg s) = false.
 Proof. exact without_signals_never_forwards. Qed.
 Print Assumptions C18_without_signals.
+(* the handler is there as long as the program is (a signal a filter swallowed is not the last one it can take) *)
+Theorem C18_handler_stays : forall s, Reach s -> sg s = SgDone -> struck s = true.
+Proof. exact signal_handler_stays. Qed.
+Print Assumptions C18_handler_stays.
 (* WithoutSignalHandler: no handler thread ever exists *)
 Theorem C18_no_handler : forall s, Reach s -> sigoff_ok s = true.
 Proof. exact (all_R _ sigoff_R). Qed.
